@@ -42,8 +42,9 @@ ASSUMPTIONS = ['IEEE overflow is outside the property: non-finite output of the 
                'every operation is exact, |impl-model| <= 1e-9*scale+1e-12 elsewhere',
                "ODL's eps fudges (lam*(1-1e-14), ||x||*(1+1e-14)) are model parameters; theorems are "
                'stated for eps = 0',
-               'Lambert-W (KL cross entropy), SVD (nuclear norm), Huber on product spaces: no model, '
-               'oracle only',
+               'Lambert-W (KL cross entropy), SVD (nuclear norm), proximal_composition: no executable '
+               'model, oracle only; Huber on product spaces, group L1-L2, weighted simplex: executed '
+               'model without an optimality theorem',
                'the oracle probes are a test: optimality for ALL z is what the Lean theorems state '
                'about the modelled formulas']
 
@@ -1222,8 +1223,9 @@ def run(ctx, deep=False):
     outs = core.run_driver('C07', lines)
     for rec, ans in zip(recs, outs):
         compare(ctx, rec, ans)
-    # feasibility of the simplex threshold: the hypothesis of C07.simplex_kkt_sufficient is
-    # checked exactly by the driver on every simplex input of this run
+    # feasibility of the simplex threshold (sum = diameter): proved for the unweighted algorithm
+    # (C07.simplex_threshold_feasible); for the array-weighted variant it is the hypothesis of
+    # C07.simplex_weighted_kkt_sufficient and is checked exactly by the driver on every input
     slines, sre = [], []
     for rec in recs:
         case, sk, sg, xc, xlist = rec[:5]
